@@ -298,7 +298,7 @@ pub fn run(tier: Tier) -> i32 {
     let th = tier.thorough();
 
     // (a) all strings over SIGMA up to length L
-    let maxlen = if th { 8 } else { 7 };
+    let maxlen = if th { 9 } else { 7 };
     // items: prefixes of length 2 (144), each worker extends to all lengths
     let mut prefixes: Vec<String> = Vec::new();
     for a in SIGMA { for b in SIGMA { prefixes.push(format!("{}{}", a, b)); } }
